@@ -91,6 +91,10 @@ func newCreateTable(ct sql.CreateTableStmt) *Schema {
 		WithoutRowid: ct.WithoutRowid,
 	}
 	autoindex := 1
+	// In a WITHOUT ROWID table SQLite creates the index of a single-column
+	// INTEGER PRIMARY KEY only after everything else in the statement, from the
+	// column alone (see convertToWithoutRowidTable() in SQLite's build.c).
+	var latePK []IndexColumn
 	for _, c := range ct.Columns {
 		col := TableColumn{
 			Column:  c.Name,
@@ -108,16 +112,19 @@ func newCreateTable(ct sql.CreateTableStmt) *Schema {
 			if ct.WithoutRowid {
 				name = ""
 			}
-			if ct.WithoutRowid {
+			if ct.WithoutRowid && isRowid(false, c.Type, c.PrimaryKeyDir) {
+				latePK = []IndexColumn{{Column: c.Name, Collate: c.Collate}}
+			} else if ct.WithoutRowid {
 				// non-rowid primary keys have a special place
-				st.setPK([]IndexColumn{
+				if st.setPK([]IndexColumn{
 					{
 						Column:    c.Name,
 						Collate:   c.Collate,
 						SortOrder: c.PrimaryKeyDir,
 					},
-				})
-				autoindex++
+				}) {
+					autoindex++
+				}
 			} else {
 				if col.Rowid {
 					st.RowidPK = true
@@ -170,8 +177,16 @@ constraint:
 				for _, co := range c.IndexedColumns {
 					st.column(co.Column).Null = false
 				}
-				st.setPK(st.toIndexColumns(c.IndexedColumns))
-				autoindex++
+				if len(c.IndexedColumns) == 1 {
+					if col := st.column(c.IndexedColumns[0].Column); isRowid(true, col.Type, c.IndexedColumns[0].SortOrder) {
+						// the sort order is kept, a COLLATE clause is not
+						latePK = []IndexColumn{{Column: col.Column, Collate: col.Collate, SortOrder: c.IndexedColumns[0].SortOrder}}
+						continue
+					}
+				}
+				if st.setPK(st.toIndexColumns(c.IndexedColumns)) {
+					autoindex++
+				}
 				continue
 			}
 			name := fmt.Sprintf("sqlite_autoindex_%s_%d", st.Table, autoindex)
@@ -184,6 +199,10 @@ constraint:
 				autoindex++
 			}
 		}
+	}
+
+	if latePK != nil {
+		st.setPK(latePK)
 	}
 
 	return st
@@ -248,18 +267,23 @@ func (st *Schema) addIndex(pk bool, name string, cols []IndexColumn) bool {
 	return true
 }
 
-// sets the PK key (for non-rowid tables). Deletes any duplicate indexes.
-func (st *Schema) setPK(cols []IndexColumn) {
+// sets the PK key (for non-rowid tables). If an equivalent UNIQUE index
+// exists already SQLite promotes that one to be the primary key (with its
+// sort order) instead of making a new index. Returns whether the primary key
+// needed an index of its own.
+func (st *Schema) setPK(cols []IndexColumn) bool {
 	st.PK = cols
 	for i, ind := range st.Indexes {
 		if sameIndexColumns(ind.Columns, cols) {
+			st.PK = ind.Columns
 			st.Indexes = append(st.Indexes[:i], st.Indexes[i+1:]...)
 			if len(st.Indexes) == 0 {
 				st.Indexes = nil // to make test diffs easier
 			}
-			break
+			return false
 		}
 	}
+	return true
 }
 
 // sameIndexColumns is how SQLite decides that a UNIQUE or PRIMARY KEY
